@@ -198,8 +198,9 @@ pub fn judge(t: &Template, x: &Exchange, before: &Snap, after: &Snap) -> Result<
     for e in before {
         let same_key = e.0 == t.method && e.1 == path && e.2 == Some(t.ep);
         if !same_key {
+            // (an implementation may drop an entry that holds nothing: a missing entry is "no buffered data")
             let now = after.iter().find(|a| a.0 == e.0 && a.1 == e.1 && a.2 == e.2);
-            if now.map(|a| &a.5) != Some(&e.5) {
+            if now.and_then(|a| a.5.clone()).unwrap_or_default() != e.5.clone().unwrap_or_default() {
                 return Err(("C11/other-resource-buffer-changed".into(), format!("buffer of another resource ({:?} {:?}) changed", e.0, e.1)));
             }
         }
